@@ -66,7 +66,7 @@ NoProbe == [on |-> FALSE, sid |-> -1, cands |-> <<>>, k |-> 1, r |-> 0, i |-> 0,
 InitState ==
   [reg |-> [k \in 0..7 |-> NoSvc], seen |-> <<>>, tx |-> <<>>, lastDid |-> 0, lastProc |-> -100000, lastQU |-> FALSE,
    obl |-> {}, qn |-> 0, slots |-> {}, gone |-> {}, exp |-> NoExp, hold |-> {}, inRecv |-> FALSE,
-   lastTcSrc |-> 0, oversize |-> FALSE, invalid |-> FALSE, added |-> {}, closed |-> FALSE, closing |-> FALSE, annc |-> {}, pr |-> NoProbe, pendReg |-> NoSvc, rejected |-> {}, again |-> <<>>, err |-> ""]
+   lastTcSrc |-> 0, oversize |-> FALSE, invalid |-> FALSE, added |-> {}, closed |-> FALSE, closing |-> FALSE, cut |-> FALSE, annc |-> {}, pr |-> NoProbe, pendReg |-> NoSvc, rejected |-> {}, again |-> <<>>, err |-> ""]
 
 (* ------------------------------------------------------------------ registry *)
 Sids(st) == {k \in 0..7 : st.reg[k] # NoSvc}
@@ -265,14 +265,21 @@ AddService(st, v, t, kind) ==
              !.rejected = @ \ SvcRecs(v)]
 
 OnApiRet(st, e) ==
-  IF e.op = "close"
+  IF e.op = "close" /\ "cut" \in DOMAIN e
+  \* the application cancelled the close half way (asyncio.wait_for with a deadline): the goodbyes that were still to come are
+  \* not owed any more -- every record has been withdrawn once --, the instance stays in its closing state until it is closed
+  \* again, and that close has to finish the job
+  \* (what an announcement sequence that was still running multicasts from here on is the consequence of the cancellation, not
+  \* of the close that follows: it is not collected for C17_AnnouncedNotWithdrawn)
+  THEN [st EXCEPT !.slots = {x \in @ : x.kind # "bye" \/ x.used \/ x.t < e.t}, !.closing = FALSE, !.cut = TRUE, !.annc = {}]
+  ELSE IF e.op = "close"
   THEN IF Bad(~e.ok, "C17_Idempotent") THEN Fail(st, "C17_Idempotent")
        ELSE IF Bad(\E x \in st.slots : x.kind = "bye" /\ ~x.used, "C17_GoodbyesBeforeClose") THEN Fail(st, "C17_GoodbyesBeforeClose")
        \* whatever was multicast as live while the instance was closing (the announcements of a registration that completed
        \* after the close request) has been withdrawn again by the time close returns
        ELSE IF Bad(st.annc # {}, "C17_AnnouncedNotWithdrawn") THEN Fail(st, "C17_AnnouncedNotWithdrawn")
        ELSE [st EXCEPT !.closed = TRUE, !.closing = FALSE, !.annc = {}, !.obl = {}, !.slots = {}, !.exp = NoExp]
-  ELSE IF st.closed \/ st.closing THEN st           \* a registration that was in flight when the instance closed: not judged
+  ELSE IF st.closed \/ st.closing \/ st.cut THEN st           \* a registration that was in flight when the instance closed: not judged
   ELSE IF e.op # "reg" THEN st
   ELSE IF st.again # <<>>
   THEN LET st1 == [st EXCEPT !.again = <<>>]
@@ -496,7 +503,7 @@ AfterClose(st, e) ==
   CASE e.ev \in {"send", "cb", "lcall"} -> IF Bad(TRUE, "C17_Quiet") THEN Fail(st, "C17_Quiet") ELSE st
     [] e.ev = "exc" -> IF Bad(TRUE, "C17_NoTimerRaises") THEN Fail(st, "C17_NoTimerRaises") ELSE Fail(st, "C15_NoException")
     [] e.ev = "recv" -> IF Bad(TRUE, "C17_Quiet") THEN Fail(st, "C17_Quiet") ELSE st     \* a closed transport was handed a datagram
-    [] e.ev = "api_ret" -> IF e.op = "close" /\ Bad(~e.ok, "C17_Idempotent") THEN Fail(st, "C17_Idempotent") ELSE st
+    [] e.ev = "api_ret" -> IF e.op = "close" /\ "cut" \notin DOMAIN e /\ Bad(~e.ok, "C17_Idempotent") THEN Fail(st, "C17_Idempotent") ELSE st
     [] OTHER -> st
 
 Step(st0, e, alt) ==
@@ -522,6 +529,7 @@ Step(st0, e, alt) ==
           [] e.ev \in {"lcall", "bstart", "lookup", "lookup_ret"} -> st1
           [] e.ev = "tclose"    -> IF Bad(\E x \in st1.slots : x.kind = "bye" /\ ~x.used, "C17_GoodbyesBeforeClose")
                                    THEN Fail(st1, "C17_GoodbyesBeforeClose") ELSE st1
+          [] e.ev = "uexc"      -> st1       \* a listener of the harness raised on purpose (on a datagram of refreshes only)
           [] e.ev = "exc"       -> Fail(st1, "C15_NoException")
           [] OTHER              -> Fail(st1, "Trace_Malformed")
 
